@@ -225,7 +225,13 @@ class C08Monitor(BookTracker):
         self.dead.add(ev["mkt"].market_id)
 
     def on_other(self, ev):
-        if ev["k"] == "running_set":
+        if ev["k"] == "refused_ret":
+            mkt = ev["mkt"]
+            if mkt.market_id not in self.dead and mkt.market_id in self.books:
+                ref = self.ref(mkt)
+                if ref.t >= 0:
+                    self.compare(mkt, self.book(mkt), ref, "after-refused-request")
+        elif ev["k"] == "running_set":
             pass
         elif ev["k"] == "log_write" and type(ev["log"]).__name__ == "SessionBeginLog":
             s = ev["log"].session
